@@ -194,6 +194,11 @@ def check_C07(ctx):
     f = timing_cases(ctx, "AlphaShape", "GensTwo", 2)
     summ = harness(ctx, ["timing", "replay", "--prop", "C07", "--spellings", "1"], cases_file=f, name="timing-c07", timeout=3600)
     report_mismatches(ctx, summ, "a specialised decoder disagrees with Beatmap on timing lines")
+    # sections in any order and repeated, feeding each other (SectionFlow.tla): HitObjects / TimingPoints / Beatmap must agree
+    f = flow_cases(ctx, 5 if thorough else 4)
+    summ = harness(ctx, ["flow", "replay", "--prop", "C07"], cases_file=f, name="flow-c07", timeout=3600)
+    report_mismatches(ctx, summ, "HitObjects / TimingPoints disagree with Beatmap on a file with interleaved sections")
+    os.remove(f)
     summ = harness(ctx, ["c07", "relations", "--tier", ctx.tier], name="c07-rel", timeout=3600)
     report_mismatches(ctx, summ, "a specialised decoder disagrees with Beatmap on a whole map")
     ctx.assumptions += ["shared fields as listed in harness/src/framing.rs::c07_diffs"]
@@ -276,6 +281,13 @@ def check_C12(ctx):
         summ = harness(ctx, ["timing", "order"], cases_file=ocases, name="timing-order", timeout=3600)
         report_mismatches(ctx, summ, "timing lines decoded with [General] values other than those in effect when the line is read")
     # the invariant Shape (strictly increasing, clamps) on real output far outside the model's time alphabet
+    # ... and the whole data flow between sections (SectionFlow.tla), with the negative control that the FINAL [General]
+    # values are not what a timing line sees
+    flow_cases(ctx, 3, expect_violation=True)
+    f = flow_cases(ctx, 5 if thorough else 4)
+    summ = harness(ctx, ["flow", "replay", "--prop", "C12"], cases_file=f, name="flow-c12", timeout=3600)
+    report_mismatches(ctx, summ, "control points of a file with interleaved sections differ from the SectionFlow specification")
+    os.remove(f)
     summ = harness(ctx, ["timing", "shape", "--runs", "3000" if thorough else "400"], name="timing-shape", timeout=3600)
     report_mismatches(ctx, summ, "a control-point list is not strictly increasing in time / violates a clamp")
     tcfg = dict(spec="TrSpec", invariants=["TrShape"], postcondition="Accepted",
@@ -854,6 +866,11 @@ def check_C15(ctx):
         summ = harness(ctx, ["mappost", "replay"], cases_file=cases, name="mappost-replay-" + profile, timeout=3600)
         report_mismatches(ctx, summ, "map-level processing differs from the MapPost specification")
         os.remove(cases)
+    # the composition with the other sections: sections in any order and repeated (SectionFlow.tla)
+    f = flow_cases(ctx, 5 if thorough else 4)
+    summ = harness(ctx, ["flow", "replay", "--prop", "C15"], cases_file=f, name="flow-replay", timeout=3600)
+    report_mismatches(ctx, summ, "objects of a file with interleaved sections differ from the SectionFlow specification")
+    os.remove(f)
     summ = harness(ctx, ["mappost", "relations", "--tier", ctx.tier], name="mappost-rel", timeout=3600)
     report_mismatches(ctx, summ, "shifting all times of a file changes more than the times")
     ctx.assumptions += ["exactness rule: beat lengths 200/400/800 (default 1000), slider multipliers 0.5/2, velocity points 0.5/1/2, path lengths "
@@ -867,6 +884,29 @@ def check_C15(ctx):
                   "x modes and checks ordering/stability, combo-after-break, the closed forms and that processing commutes with shifting all times; "
                   "every case is replayed through HitObjects and Beatmap (a sample of them also shifted); the shift relation is evaluated on "
                   "bundled and generated files; non-trivial = distinct cases with a slider or a break")
+
+
+def flow_cases(ctx, maxitems, emit=True, expect_violation=False):
+    """SectionFlow.tla: every sequence of section records (any section order, sections repeated) up to the bound."""
+    sany(ctx, "SectionFlow")
+    name = "MC_SectionFlow_%d%s" % (maxitems, "_neg" if expect_violation else "")
+    cases = os.path.join(ctx.work, name + ".ndjson")
+    body = cases + ".body"
+    cfg = dict(spec="FSpec", invariants=["NegFinalGeneralIsUsed"] if expect_violation else ["FlowOnly", "EarlyGeneralIsEnough"],
+               constants=dict(Alpha="<-AlphaShape", Gens="<-GensTwo", MaxLines="0", MinLines="0", Emit="FALSE", MaxObjs="0",
+                              TimesSet='"small"', EmitPost="FALSE", Profile='"base"', MaxItems=str(maxitems),
+                              EmitFlow="TRUE" if emit and not expect_violation else "FALSE"))
+    r = tlc(ctx, "SectionFlow", name, cfg, workers=14, timeout=3000, cases_file=None if expect_violation or not emit else body,
+            expect_violation=expect_violation, count=not expect_violation)
+    if expect_violation or not emit:
+        return None
+    with open(cases, "w") as f:
+        f.write(json.dumps({"alpha": r["alpha"]}) + "\n")
+        with open(body) as b:
+            for ln in b:
+                f.write(ln)
+    os.remove(body)
+    return cases
 
 
 # ----------------------------------------------------------------------------
